@@ -235,6 +235,16 @@ def build_recipe(case, ctx):
         P[sn] = f"LICENSES/{sn}.txt"
         U.add(sn)
         cells.append((sn, "licenseref", "snippet-far-down", "txt", "header"))
+    if case["k"] % 4 == 3:
+        # a LicenseRef- text without file extension whose name another project - linted just before in the same process - ships
+        # too: what one project provides says nothing about the next (only SPDX-named texts are told off for a missing extension)
+        rc = f"LicenseRef-recurring-{case['k']}"
+        licenses.append({"name": rc, "id": rc, "noext": True})
+        P[rc] = f"LICENSES/{rc}"
+        U.add(rc)
+        files.append({"path": "recurring.py", "kind": "text", "style": "python", "multi": False,
+                      "sources": [{"carrier": "header", "copyrights": ["2022 Recurring"], "exprs": [("id", rc)], "toml_dir": ""}]})
+        cells.append((rc, "licenseref", "alone", "noext-after-other-project", "header"))
     if "LicenseRef-helper" in U:
         licenses.append({"name": "LicenseRef-helper.txt", "id": "LicenseRef-helper"})
         P["LicenseRef-helper"] = "LICENSES/LicenseRef-helper.txt"
@@ -304,6 +314,14 @@ def run_case(case, ctx):
             trees.git(root, "add", "-A", check=False)
             trees.git(root, "commit", "-q", "-m", "init", check=False)
             res.cell("licenses:git-ignored-texts")
+        if case["k"] % 4 == 3:
+            prelude = top / "prelude project"
+            (prelude / "LICENSES").mkdir(parents=True)
+            rc = f"LicenseRef-recurring-{case['k']}"
+            (prelude / "LICENSES" / f"{rc}.txt").write_text("text\n")
+            (prelude / "p.py").write_text(f"# SPDX-FileCopyrightText: 2022 P\n# SPDX-License-Identifier: {rc}\n")
+            run_cli(["--no-multiprocessing", "--root", str(prelude), "lint", "--json"], cwd=str(prelude))
+            res.cell("another-project-linted-first-in-the-same-process")
         cwd, gargs = trees.place_lint(rng_for(ctx.seed, "c06place", case["k"]), root)
         r = run_cli(["--no-multiprocessing"] + gargs + ["lint", "--json"], cwd=cwd)
         res.n = len(cells)
